@@ -93,15 +93,25 @@ func uniq(s []string) []string {
 	return out
 }
 
-func c11Memory(c *eng.Ctx, r *eng.Report, rows []rowFx) {
-	const rule = "R11.2"
-	r.Min(rule, 24)
+func c11Memory(c *eng.Ctx, r *eng.Report, rows []rowFx) { c11MemoryAs(c, r, rows, "R11.2", nil, 24) }
+
+// c11MemoryAs: the same coverage rule under another property's id, optionally
+// restricted to named rows (C10 applies it to the standard opcodes: memory is
+// resized to the maximum touched offset before execution).
+func c11MemoryAs(c *eng.Ctx, r *eng.Report, rows []rowFx, rule string, only map[string][]string, min int) {
+	r.Min(rule, min)
 	memGas := c.Func("vm", "memoryGasCost")
 	r.Anchor(memGas != nil, rule, "vm.memoryGasCost")
 	for _, rf := range rows {
 		row, fx := rf.Row, rf.Fx
 		key := "row:" + row.Name
 		pos := c.Pos(row.Pos)
+		if only != nil {
+			if _, in := only[row.Name]; !in || row.Superseded {
+				continue
+			}
+			key = "memsize:" + row.Name + "@" + row.Where
+		}
 		if len(fx.Mem) == 0 && row.MemSize == nil {
 			continue
 		}
